@@ -26,6 +26,15 @@ CHECKS = {
  "C16": ("model_checking", "TLC model checking of the Latch action property + trace validation of call sequences that continue after failure / completion",
          "Latch ([][phase = None => nothing moves]_vars) and NoZeroProgress are checked on every behaviour of the bounded models; real call sequences keep calling write/flush after the first error or after the declared size was reached and every call is validated against the spec; contract: no consumption, no sink growth, finish is Err after a failed write; Ok(0) and unchanged output after completion; no panic.",
          "5 C16"),
+ "C03": ("model_checking", "TLC model checking of Xz.tla (AcceptsWellFormed, PadLemma) + replay of every exported well-formed file into xz_decompress",
+         "TLC enumerates every well-formed supported file of the bounded model and checks that the field-level transcription of the parser (with the code's own padding and record arithmetic) accepts it; the harness serialises each abstract file (own CRC32/CRC64) and the real decoder must return exactly the concatenation of the block contents.",
+         "5 C03"),
+ "C06": ("model_checking", "TLC model checking of Xz.tla (AcceptImpliesIntegrity, SinkOnlyVerified, MutationsAreCaught) + replay of every single-field mutation (CRCs repaired) + exhaustive bit flips / truncations of small files",
+         "Every single-field mutation of every bounded file is enumerated by TLC (parser transcription vs declarative integrity, with the footer comparison in the arithmetic the code uses) and replayed byte-exactly with all enclosing CRCs recomputed, so only the field's own validation can reject it; in addition every single-bit flip and every truncation of small CRC32/CRC64 files must fail or leave the output identical.",
+         "5 C06"),
+ "C18": ("model_checking", "TLC model checking of Xz.tla (UnsupportedRefused) + replay of every file using an unsupported feature",
+         "All 16 check ids, foreign filter ids, two-filter chains, wrong filter property sizes, reserved bits and trailing bytes are enumerated on every bounded file by TLC and replayed: the real decoder must return an error.",
+         "5 C18"),
 }
 NOT_YET = {}
 props = [json.loads(l) for l in open(os.path.join(V, "properties.jsonl"))]
